@@ -7,6 +7,12 @@ import (
 	"github.com/mk6i/mkdb/storage"
 )
 
+// updateChecker is implemented by relation managers that can tell, without
+// changing anything, whether the new contents of a row would be refused.
+type updateChecker interface {
+	CheckUpdate(tableName string, rowID uint32, cols []string, updateSrc []interface{}) error
+}
+
 func EvaluateUpdate(q sql.UpdateStatementSearched, rm RelationManager) error {
 	rm.StartTxn()
 	defer rm.EndTxn()
@@ -36,6 +42,15 @@ func EvaluateUpdate(q sql.UpdateStatementSearched, rm RelationManager) error {
 	for _, set := range q.Set {
 		cols = append(cols, set.ObjectColumn)
 		updateSrc = append(updateSrc, set.UpdateSource)
+	}
+
+	// refuse the whole statement before its first row is changed if a row would be invalid
+	if rc, ok := rm.(updateChecker); ok {
+		for _, row := range rows {
+			if err := rc.CheckUpdate(q.TableName, row.RowID, cols, updateSrc); err != nil {
+				return err
+			}
+		}
 	}
 
 	var batch storage.WALBatch
